@@ -140,9 +140,9 @@ def gen_lines(chk, rng):
     for n in range(max_n + 1):
         cs = contents(n)
         for init in cs:
-            common += family_lines(n, init, 'c', nul_inputs=(n <= 4))
-            if n <= (4 if thorough else 3):
-                common += family_lines(n, init, 'u', nul_inputs=(n <= 2))
+            common += family_lines(n, init, 'c', nul_inputs=(thorough or n <= 4))
+            if n <= (5 if thorough else 3):
+                common += family_lines(n, init, 'u', nul_inputs=(n <= (4 if thorough else 2)))
             if n <= CE_MAX_N:
                 ce += ce_lines(n, init)
         for init in (cs[0], cs[-1], cs[len(cs) // 2]):
@@ -263,9 +263,9 @@ def correspond(chk, configs):
                        'assertion flag')
     chk.cov['exhaustive'] = True
     chk.cov['scope'] = dict(scope, **{
-        'input_lengths': '0..N+1', 'input_shapes': 'distinct letters; one NUL at every position (N<=4)',
+        'input_lengths': '0..N+1', 'input_shapes': 'distinct letters; one NUL at every position (char: N<=4 quick, all N thorough)',
         'modes': list(MODES) + ['default argument'], 'range_sources': list(RANGE_SRC),
-        'iterator_sources': list(ITER_SRC), 'byte_types': ['char', 'unsigned char (small N)'],
+        'iterator_sources': list(ITER_SRC), 'byte_types': ['char', 'unsigned char (N<=3 quick, N<=5 thorough)'],
         'constant_evaluation': 'strlen/strlen_r N<=%d, assign_string(const char*) N<=%d, C++20 builds' % (
             min(CE_MAX_N, scope['exhaustive_N'][1]), CE_ASSIGN_MAX_N)})
     chk.cov['outcome_histogram'] = outcomes
